@@ -1,5 +1,5 @@
 """C14 classification tables (decided completely; the choice of predecessor, i.e. the float order, is not)."""
-from rules import booltables as bt
+from rules import booltables as bt, sweeprules, pirules
 
 LEVEL = 'other'
 EXPLANATION = __doc__
@@ -11,3 +11,6 @@ def run(ctx, rep):
     bt.check_trans(ctx, rep, 'T-trans-coincident', ['SameTransition', 'DifferentTransition'])
     bt.check_prop(ctx, rep)
     bt.check_prev(ctx, rep)
+    bt.check_result_part(ctx, rep)
+    pirules.check_code(ctx, rep, rule='T-type')
+    sweeprules.check_loop(ctx, rep, rule_neigh='S-neigh', rule_recompute='S-recompute')
